@@ -26,7 +26,15 @@ CATALOGUE_S15B = {
     'kt':  [(1, [(1, 'P')]), (3, [(1, 0)])],               # many-to-many partner of the child
     'kk':  [(1, [(1, 'P')]), (1, [(1, 'P')])],
 }
-CATALOGUES = {'S15': CATALOGUE_S15, 'S15B': CATALOGUE_S15B}
+CATALOGUE_S15C = {
+    'c':   [(1, [(1, 'P')])],
+    'cg':  [(1, [(1, 'P')]), (5, [(1, 0)])],               # cascading child with a grandchild
+    'm':   [(2, [(1, 'P')])],
+    'o':   [(3, [(1, 'P')])],                              # cascaded one-to-one dependent
+    'oc':  [(3, [(1, 'P')]), (6, [(1, 0)])],               # ... with a child of its own
+    'r':   [(4, [(1, 'P')])],                              # the refusing one-to-one dependent (declared last)
+}
+CATALOGUES = {'S15': CATALOGUE_S15, 'S15B': CATALOGUE_S15B, 'S15C': CATALOGUE_S15C}
 
 
 def population(sname, names):
@@ -74,6 +82,7 @@ def all_histories(sname, max_dependents, max_objects, rng=None, limit=None):
     space = []
     for k in range(0, max_dependents + 1):
         for names in itertools.combinations(cat, k):
+            if sname == 'S15C' and 'o' in names and 'oc' in names: continue      # one one-to-one dependent per attribute
             ops, objs = population(sname, names)
             if len(objs) > max_objects: continue
             space.append((names, [o for o, e in objs]))
